@@ -287,8 +287,8 @@ namespace Dune {
 
   //Boolean operators
 #define DUNE_SIMD_LOOP_BOOLEAN_OP(SYMBOL)                         \
-  template<class T, std::size_t S, std::size_t A>                                \
-  auto operator SYMBOL(const LoopSIMD<T,S,A> &v, const Simd::Scalar<T> s) { \
+  template<class T, std::size_t S, std::size_t A, class U>                       \
+  auto operator SYMBOL(const LoopSIMD<T,S,A> &v, const U s) {            \
     Simd::Mask<LoopSIMD<T,S,A>> out;                                     \
     DUNE_PRAGMA_OMP_SIMD                                          \
     for(std::size_t i=0; i<S; i++){                               \
